@@ -328,6 +328,10 @@ def fxp_sum(x, sizes='best_sizes', axis=None, dtype=None, out=None, vdtype=None)
     else:
         raise ValueError('Could not resolve output size!')
 
+    # propagate inaccuracy from argument
+    if isinstance(x, Fxp) and x.status['inaccuracy']:
+        sum_along_axis.status['inaccuracy'] = True
+
     return sum_along_axis
 
 def from_bin(x, **kwargs):
